@@ -369,6 +369,13 @@ package hermes
 //@   before stmt "for i := 0; i < g.N; i++ { l.NFK[i] =": assert[C08] redev: 0 <= REDEV && REDEV <= 1
 //@   before stmt "if EVMAX > .65 {": assert[C08] split: 0 <= VERDU[tag()] && VERDU[tag()] <= ite(cropped(), 0.65, 0.6) && 0 <= EVMAX && EVMAX <= VERDU[tag()] && TRAMAX == VERDU[tag()] - EVMAX
 //@   safety[C06] index
+// division/domain safety of the ET formulas (over the reals a division by zero or a log/sqrt outside its domain is where
+// a NaN or Inf is born); the physical ranges of the weather and site values are explicit preconditions (assumptions)
+//@   safety[C08] div
+//@   requires[C08] temps: g.TMIN[tag()] >= 0-90 && g.TMAX[tag()] >= 0-90 && g.TEMP[tag()] >= 0-90
+//@   requires[C08] humidity: 0 <= g.RH[tag()] && g.RH[tag()] <= 100
+//@   requires[C08] site: 0-500 <= g.ALTI && g.ALTI <= 9000 && g.WINDHI >= 0.5
+//@   requires[C08] daylight: g.RAD[tag()] > 0 ==> ufreal("extraterrestrial", g.TAG.Num, g.LAT) > 0
 //@ loop Evatra#2
 //@   invariant range: 0 <= \i && \i <= g.N
 //@ loop Evatra#3
@@ -408,8 +415,15 @@ package hermes
 //@   serves C08
 //@   trusted
 //@   ensures daylength: 0 <= DL && DL <= 24
-//@   ensures radiation: EXT >= 0
+//@   ensures radiation: EXT >= 0 && EXT == ufreal("extraterrestrial", tag, lat)
 //@   modifies nothing
+
+// Stomatal resistance from the photosynthesis sub-model (transcendental throughout): only its sign is used, ASSUMED (trusted)
+//@ func stomat
+//@   serves C08
+//@   trusted
+//@   ensures resistance: g.RSTOM >= 0
+//@   modifies g.RSTOM, g.SUND, g.RADSUM
 
 // Haude/Heger factor reader (text layer): the factors it stores are assumed non-negative (parameter file domain).
 //@ func verdun
@@ -725,6 +739,7 @@ package hermes
 //@   ensures strict: result0 ==> (indom(B(), "MAXAMAX") ==> B()["MAXAMAX"] > 0) && (indom(B(), "VELOC") ==> B()["VELOC"] > 0) && (indom(B(), "WUMAXPF") ==> B()["WUMAXPF"] > 0)
 //@   ensures stages: result0 ==> forallkey(k, D(), forallint(s, indom2(D(), k, s) ==> 1 <= s && s <= numStages))
 //@   ensures tsum: result0 ==> forallint(s, indom2(D(), "TSUM", s) ==> 0 <= D()["TSUM"][s] && D()["TSUM"][s] <= 10000)
+//@   ensures organs: result0 ==> forallkey(k, cropOW.PartitioningParameters, forallkey2(p, cropOW.PartitioningParameters, k, 1 <= p.Stage && p.Stage <= numStages && 1 <= p.Part && p.Part <= numPartitions))
 //@   modifies nothing
 //@ loop CropOverwrite.isValidCropOverwrite#1
 //@   invariant base: (visited("MAXAMAX") ==> 0 < B()["MAXAMAX"] && B()["MAXAMAX"] <= 100) && (visited("MINTMP") ==> 0-30 < B()["MINTMP"] && B()["MINTMP"] < 50) && (visited("WUMAXPF") ==> 0 < B()["WUMAXPF"] && B()["WUMAXPF"] <= 20) && (visited("VELOC") ==> 0 < B()["VELOC"] && B()["VELOC"] <= 1) && (visited("YIFAK") ==> 0 <= B()["YIFAK"] && B()["YIFAK"] <= 1) && (visited("INITCONCNBIOM") ==> 0 <= B()["INITCONCNBIOM"] && B()["INITCONCNBIOM"] <= 100) && (visited("INITCONCNROOT") ==> 0 <= B()["INITCONCNROOT"] && B()["INITCONCNROOT"] <= 100)
@@ -735,6 +750,10 @@ package hermes
 //@   invariant stages: forallint(s, visited(s) ==> 1 <= s && s <= numStages)
 //@ loop CropOverwrite.isValidCropOverwrite#4
 //@   invariant tsum: forallint(s, visited(s) ==> 0 <= stages[s] && stages[s] <= 10000)
+//@ loop CropOverwrite.isValidCropOverwrite#14
+//@   invariant organs: forallkey(k, cropOW.PartitioningParameters, visited(k) ==> forallkey2(p, cropOW.PartitioningParameters, k, 1 <= p.Stage && p.Stage <= numStages && 1 <= p.Part && p.Part <= numPartitions))
+//@ loop CropOverwrite.isValidCropOverwrite#15
+//@   invariant organs: forallkey(p, parts, visited(p) ==> 1 <= p.Stage && p.Stage <= numStages && 1 <= p.Part && p.Part <= numPartitions)
 
 // both crop parameter readers establish the representation invariant that the override preserves
 //@ region ReadCropParamYml#stages from "l.tendsum = 0" to "for i := 0; i < l.NRENTW; i++ {"
@@ -1202,6 +1221,30 @@ package hermes
 //@   ensures earlier: forall(s, 0, 10, s != g.INTWICK.Index || g.INTWICK.Index == st() ==> g.DEV[s] == old(g.DEV[s]))
 //@   ensures dual: g.INTWICK.Num == real(g.INTWICK.Index + 1)
 
+// vernalisation factor in [0,1]; vernalisation days never decrease
+//@ func vern
+//@   serves C09
+//@   requires stage: 0 <= g.INTWICK.Index && g.INTWICK.Index < 10
+//@   requires day: 0 <= g.TAG.Index && g.TAG.Index < 366 && g.DT.Num == 1
+//@   ensures factor: 0 <= l.FV && l.FV <= 1
+//@   ensures days: g.VERNTAGE >= old(g.VERNTAGE)
+//@   modifies g.VERNTAGE, l.FV
+//@   safety[C09] div index
+
+// development progress of one day: the photoperiod and vernalisation factors lie in [0,1] for long-day AND short-day crops,
+// the stress acceleration is at least 1, so the temperature sums of the current stage and the cumulative sum never decrease
+//@ region PhytoOut#development from "if g.VSCHWELL[g.INTWICK.Index] == 0 {" to "if g.TEMP[g.TAG.Index] >= g.BAS[g.INTWICK.Index] {"
+//@   serves C09
+//@   opaque CalulateDevelopmentStages
+//@   requires stage: 0 <= g.INTWICK.Index && g.INTWICK.Index < 10
+//@   requires day: 0 <= g.TAG.Index && g.TAG.Index < 366 && g.DT.Num == 1
+//@   requires crop: 0 <= g.AKF.Index && g.AKF.Index < 300
+//@   ensures photoperiod: 0 <= l.FP && l.FP <= 1
+//@   ensures vernalisation: 0 <= l.FV && l.FV <= 1
+//@   ensures stagesum: g.SUM[g.INTWICK.Index] >= old(g.SUM[g.INTWICK.Index])
+//@   ensures phyllo: g.PHYLLO >= old(g.PHYLLO)
+//@   ensures stageindex: g.INTWICK.Index == old(g.INTWICK.Index)
+
 // organ masses: the first three organs stay positive, the others non-negative, leaf area index non-negative
 //@ region PhytoOut#organs from "for i := 0; i < g.NRKOM; i++ { if g.SUM[g.INTWICK.Index]/g.TSUM[g.INTWICK.Index] > 1 {" to "for i := 0; i < g.NRKOM; i++ { if g.SUM[g.INTWICK.Index]/g.TSUM[g.INTWICK.Index] > 1 {"
 //@   serves C09
@@ -1383,8 +1426,10 @@ package hermes
 //@   trusted
 //@   aborts-only a parameter or input file of the project cannot be opened or read (environment failure, not a reported input error class)
 //@ func ValAsFloat
-//@   serves C11
+//@   serves C11, C10
 //@   trusted
+//@   ensures parsed: result0 == ufreal("number", toParse)
+//@   modifies nothing
 //@   aborts-only a numeric field of a parameter table is not a number (malformed table, not a reported input error class)
 
 // inconsistent texture fractions (pedotransfer route): Input only goes on with fractions that add up to 100 % (+-3)
@@ -1428,3 +1473,39 @@ package hermes
 //@   after call Nitro: ghost failed = !isnil(res1)
 //@   ensures stops: !failed
 //@   return-ensures error: !isnil(result0)
+
+// ---------------------------------------------------------------------------
+// C10  fertiliser table split (dueng): the amounts of event i come from the table row whose CODE EQUALS the fertiliser
+// code of the event (first column, whole token), and are the stated split of applied quantity x total N:
+// direct part (minus ammonia loss), ammonium part, fast and slow organic parts. number(t) is the parsed value of a
+// table token (text layer, uninterpreted); f2..f5, vol are the fractions of the matching row (ghost).
+//@ func dueng
+//@   serves C10
+//@   ghost var matched bool = false
+//@   ghost var code string
+//@   ghost var ntot real
+//@   ghost var f2 real
+//@   ghost var f3 real
+//@   ghost var f4 real
+//@   ghost var f5 real
+//@   ghost var vol real
+//@   after stmt "l.NORG[i] = ValAsFloat(token[1]": ghost matched = true
+//@   after stmt "l.NORG[i] = ValAsFloat(token[1]": ghost code = token[0]
+//@   after stmt "l.NORG[i] = ValAsFloat(token[1]": ghost ntot = ufreal("number", token[1])
+//@   after stmt "l.NORG[i] = ValAsFloat(token[1]": ghost f2 = ufreal("number", token[2])
+//@   after stmt "l.NORG[i] = ValAsFloat(token[1]": ghost f3 = ufreal("number", token[3])
+//@   after stmt "l.NORG[i] = ValAsFloat(token[1]": ghost f4 = ufreal("number", token[4])
+//@   after stmt "l.NORG[i] = ValAsFloat(token[1]": ghost f5 = ufreal("number", token[5])
+//@   after stmt "l.NORG[i] = ValAsFloat(token[1]": ghost vol = ufreal("number", token[6])
+//@   define split() = (matched ==> code == g.DGART[i] && l.NORG[i] == ntot && g.NDIR[i] == l.DGMG[i]*ntot*f2*(1 - f5*vol) && g.NH4N[i] == l.DGMG[i]*ntot*f2*f5*(1 - vol) && g.NSAS[i] == (l.DGMG[i]*ntot - g.NDIR[i])*f3 && g.NLAS[i] == (l.DGMG[i]*ntot - g.NDIR[i])*f4)
+//@   define others() = forall(k, 0, 300, k != i ==> g.NDIR[k] == old(g.NDIR[k]) && g.NH4N[k] == old(g.NH4N[k]) && g.NSAS[k] == old(g.NSAS[k]) && g.NLAS[k] == old(g.NLAS[k]) && l.NORG[k] == old(l.NORG[k]))
+//@   requires event: 0 <= i && i < 300
+//@   ensures row: split()
+//@   ensures nomatch: !matched ==> g.NDIR[i] == old(g.NDIR[i]) && g.NH4N[i] == old(g.NH4N[i]) && g.NSAS[i] == old(g.NSAS[i]) && g.NLAS[i] == old(g.NLAS[i])
+//@   ensures others: others()
+//@   ensures quantity: l.DGMG == old(l.DGMG) && g.DGART == old(g.DGART)
+//@ loop dueng#1
+//@   invariant row: split()
+//@   invariant nomatch: !matched ==> g.NDIR[i] == old(g.NDIR[i]) && g.NH4N[i] == old(g.NH4N[i]) && g.NSAS[i] == old(g.NSAS[i]) && g.NLAS[i] == old(g.NLAS[i])
+//@   invariant others: others()
+//@   invariant quantity: l.DGMG == old(l.DGMG) && g.DGART == old(g.DGART)
